@@ -3,7 +3,7 @@ from .. import family, mapcase
 
 PROPS_FILES = ['theories/Props/C07.v']
 FINDINGS_FILES = ['theories/Findings/C07.v']
-LEVEL = 'other'
+LEVEL = 'proof'
 TRUSTED = ['Model/Spec.v joined_rows: the relational inner equi-join (list comprehension over child x parent rows, NULL keys never match)',
            'Model/Engine.v merge_data / refobj branch: pandas index join and merge are modelled as the same relation (agreement measured by the correspondence)']
 ASSUMES = ['CSV sources; other formats: C10']
